@@ -236,24 +236,75 @@ theorem explicit_none_accepted :
 
 /-- **a `ComponentIDComboHelper` mirrors its datasets after every history**, starting from datasets
 with *arbitrary* component tables (`data`: any kinds incl. `extended`, any number of derived / pixel /
-world components — `cinit`, `cinitT` are instances), of component additions (any kind),
-removals, renames, reorders, id replacements, helper and collection operations, flag flips and
-selections, with hub delay blocks opened and closed anywhere: whenever no delay block is open the
-choices are exactly `refresh` of the datasets *as they are now*, and the selection is valid. -/
-theorem combo_history_valid (n nCid : Nat) (data : Nat → DS) (idx : Int) (ops : List C18Combo.COp)
-    (ha : Lemmas.C18Combo.cAdmRun (cinitWith n nCid data idx) ops) :
-    let st := crun (cinitWith n nCid data idx) ops
-    st.depth = 0 → comboOk st.F (st.hdata.map st.data) st.pick.choices st.pick.sel = true := by
-  intro st hd
-  have h := Lemmas.C18Combo.cinv_run ops _ (Lemmas.C18Combo.cinv_initWith n nCid data idx) ha
-  have hf : st.pick.choices = refresh st.F (st.hdata.map st.data) := by
-    rcases h.fresh with hf | ⟨hp, _⟩
-    · exact hf
-    · have : st.depth > 0 := hp
-      omega
-  unfold comboOk
-  rw [Bool.and_eq_true]
-  exact ⟨by rw [← hf]; exact beq_self_eq_true _, h.sel⟩
+world components — `cinit`, `cinitT`, `cinitTH` are instances), for a helper built with the data
+collection (`hasDc`, subscribed at construction) or without one (every viewer-state / layer-state
+picker: subscribes lazily in `append_data`), of component additions (any kind), removals, renames,
+reorders, id replacements on datasets that are, were or never were in the helper, helper operations
+(`append_data`, `remove_data`, `clear`, `set_multiple_data` — emptying and refilling the helper any
+number of times), collection operations, flag flips and selections, with hub delay blocks opened and
+closed anywhere, in any order.  **At every moment** a helper that holds a dataset is subscribed to the
+hub (`subOk`), and whenever no delay block is open the choices are exactly `refresh` of the datasets
+*as they are now* and the selection is valid.  Proved for every release policy that keeps
+"subscribed ⇔ hub reference set": the code that exists (`Release.never`, i.e. `crun`) and a helper that
+unsubscribes when empty *and* resets `_hub` (`resetRef`); `keepRef` (seeded change C18c) is excluded —
+`unsubscribe_without_reset_breaks`. -/
+theorem combo_history_valid (r : Release) (hr : r.sound) (hasDc : Bool) (n nCid : Nat) (data : Nat → DS)
+    (idx : Int) (ops : List C18Combo.COp)
+    (ha : Lemmas.C18Combo.cAdmRunR r (cinitH hasDc n nCid data idx) ops) :
+    let st := crunR r (cinitH hasDc n nCid data idx) ops
+    subOk st.hdata st.sub = true ∧
+    (st.depth = 0 → comboOk st.F (st.hdata.map st.data) st.pick.choices st.pick.sel = true) := by
+  intro st
+  have h := Lemmas.C18Combo.cinv_run r hr ops _ (Lemmas.C18Combo.cinv_initH hasDc n nCid data idx) ha
+  refine ⟨?_, ?_⟩
+  · unfold subOk
+    by_cases he : st.hdata = []
+    · rw [he]; rfl
+    · have : st.sub = true := by rw [h.subs.eq]; exact h.subs.holds he
+      rw [this]; exact Bool.or_true _
+  · intro hd
+    have hf : st.pick.choices = refresh st.F (st.hdata.map st.data) := by
+      rcases h.fresh with hf | ⟨hp, _⟩
+      · exact hf
+      · have : st.depth > 0 := hp
+        omega
+    unfold comboOk
+    rw [Bool.and_eq_true]
+    exact ⟨by rw [← hf]; exact beq_self_eq_true _, h.sel⟩
+
+/-- the statement for the code that exists, in the words of the driver (`cstep` / `crun`). -/
+theorem combo_history_valid_as_coded (hasDc : Bool) (n nCid : Nat) (data : Nat → DS) (idx : Int)
+    (ops : List C18Combo.COp) (ha : Lemmas.C18Combo.cAdmRun (cinitH hasDc n nCid data idx) ops) :
+    let st := crun (cinitH hasDc n nCid data idx) ops
+    subOk st.hdata st.sub = true ∧
+    (st.depth = 0 → comboOk st.F (st.hdata.map st.data) st.pick.choices st.pick.sel = true) :=
+  combo_history_valid .never (by intro h; cases h) hasDc n nCid data idx ops ha
+
+/-- **unsubscribing when empty without resetting the hub reference breaks the picker** (seeded change
+C18c, `Release.keepRef`): a helper without data collection is given dataset 0, emptied (through
+`remove_data`, `clear` or `set_multiple_data([])`), given the dataset again — `append_data` sees
+`self.hub is not None` and does not subscribe — and then a component is added / the selected one is
+removed: no delay block is open, the helper holds the dataset, is not subscribed, offers a stale list
+and (second history) still selects the removed component.  The same histories are fine for the code
+that exists and for the policy that also resets `_hub`. -/
+theorem unsubscribe_without_reset_breaks :
+    let h1 : List C18Combo.COp := [.helperAppend 0, .helperRemove 0, .helperAppend 0, .addComp 0 .numerical]
+    let h2 : List C18Combo.COp := [.helperAppend 0, .helperClear, .setMultiple [0], .select (some 2), .removeComp 0 0]
+    let h3 : List C18Combo.COp := [.setMultiple [0, 1], .setMultiple [], .setMultiple [1], .delayOpen, .reorder 1, .delayClose]
+    let bad := fun (h : List C18Combo.COp) =>
+      let st := crunR .keepRef (cinitTH false [⟨[.categorical, .datetime, .numerical], 0, 1, 1⟩, ⟨[.numerical], 0, 2, 0⟩] 0) h
+      st.depth = 0 ∧ st.hdata ≠ [] ∧ st.sub = false ∧ subOk st.hdata st.sub = false ∧
+      comboOk st.F (st.hdata.map st.data) st.pick.choices st.pick.sel = false
+    let good := fun (r : Release) (h : List C18Combo.COp) =>
+      let st := crunR r (cinitTH false [⟨[.categorical, .datetime, .numerical], 0, 1, 1⟩, ⟨[.numerical], 0, 2, 0⟩] 0) h
+      st.sub = true ∧ comboOk st.F (st.hdata.map st.data) st.pick.choices st.pick.sel = true
+    bad h1 ∧ bad h2 ∧
+    (crunR .keepRef (cinitTH false [⟨[.categorical, .datetime, .numerical], 0, 1, 1⟩, ⟨[.numerical], 0, 2, 0⟩] 0) h2).pick.sel = some 2 ∧
+    good .never h1 ∧ good .never h2 ∧ good .never h3 ∧ good .resetRef h1 ∧ good .resetRef h2 ∧ good .resetRef h3 ∧
+    -- with a data collection the helper is never released: the policy makes no difference
+    (let st := crunR .keepRef (cinitTH true [⟨[.categorical, .datetime, .numerical], 0, 1, 1⟩] 0) h1
+     st.sub = true ∧ comboOk st.F (st.hdata.map st.data) st.pick.choices st.pick.sel = true) := by
+  decide
 
 /-- **dataset pickers mirror the collection / the curated list** after every history (append /
 remove of datasets, helper operations, relabelling, selections, delay blocks): outside a delay
